@@ -412,6 +412,8 @@ impl Pipeline {
             let pipeline_stats = self.stats.clone();
 
             let handle = tokio::spawn(async move {
+                // the first failure of this stage: it ends the stream and is reported by execute_stream
+                let mut outcome: Result<()> = Ok(());
                 while let Some(item) = stage_input_rx.recv().await {
                     let start_time = Instant::now();
                     stage_stats.active_items.fetch_add(1, Ordering::Relaxed);
@@ -437,8 +439,14 @@ impl Pipeline {
                                 .total_processed
                                 .fetch_add(1, Ordering::Relaxed);
                         }
-                        Ok(Err(_)) | Err(_) => {
-                            // Stage failed or timed out
+                        Ok(Err(e)) => {
+                            // Stage failed: the item has no output, so the caller must hear about it
+                            outcome = Err(e);
+                            break;
+                        }
+                        Err(_) => {
+                            // Stage timed out
+                            outcome = Err(ZiporaError::configuration("stage timeout"));
                             break;
                         }
                     }
@@ -449,17 +457,29 @@ impl Pipeline {
                 }
 
                 drop(output_tx); // Signal end of stream
+                outcome
             });
 
             handles.push(handle);
         }
 
-        // Wait for all stages to complete
+        // Wait for all stages to complete; a failing or timed-out item surfaces as the error of the
+        // call (the outputs delivered before it stay valid), never as a silently shorter stream
+        let mut first_error = None;
         for handle in handles {
-            let _ = handle.await;
+            let outcome = match handle.await {
+                Ok(outcome) => outcome,
+                Err(_) => Err(ZiporaError::configuration("stage task panicked")),
+            };
+            if let Err(e) = outcome {
+                first_error.get_or_insert(e);
+            }
         }
 
-        Ok(())
+        match first_error {
+            Some(e) => Err(e),
+            None => Ok(()),
+        }
     }
 
     /// Process a batch of items through a single stage
